@@ -116,6 +116,13 @@ P.update({
           'explicit TLA+ specification of the configuration semantics, TLC enumeration of the first-match rule, oracle evaluation of recorded create() calls of the real writer'),
 })
 
+P.update({
+  'C16': (True, 'Rules.tla',
+          'Rules.tla holds RelayRulesRouter.getDestinations as the code iterates (first match, continue chain, default rule last, filtered by the configured set), its closed form, and the aggregation-rule pattern language; TLC proves ClosedForm and OnlyConfigured over every small rule table; generated relay-rules.conf files (shuffled default section, default = false decoys, continue spellings, destination subsets) are loaded by the real RelayRulesRouter with destinations added/removed through the router API, generated aggregation-rules files by the real AggregatedConsistentHashingRouter, and TLC compares every recorded routing decision with the specification (for aggregated routing: the union of the hash destinations of the aggregate names the rule language gives).',
+          'relay-rule regexes restricted to a case-insensitive literal grammar (value oracle); hash destinations of a key come from the real ConsistentHashingRouter (C05/C06)',
+          'explicit TLA+ specification of the routing rules, TLC enumeration of small rule tables, oracle evaluation of recorded decisions of the real routers'),
+})
+
 PENDING_REASON = 'check not built yet in this round (planned per DESIGN.md section 5); not claimed until its TLA+ model and conformance harness exist'
 
 
